@@ -47,4 +47,7 @@ var props = map[string]propCfg{
 	"C11": one(part{Pkg: "./props/static", Test: "TestC11",
 		Quick:    tierCfg{Cases: 96, Shards: 6, Timeout: 10 * min, ShrinkTime: 30 * sec},
 		Thorough: tierCfg{Cases: 1500, Shards: 14, Timeout: 60 * min, ShrinkTime: 5 * min}}),
+	"C08": one(part{Pkg: "./props/static", Test: "TestC08",
+		Quick:    tierCfg{Cases: 64, Shards: 8, Timeout: 10 * min, ShrinkTime: 30 * sec},
+		Thorough: tierCfg{Cases: 1200, Shards: 14, Timeout: 60 * min, ShrinkTime: 5 * min}}),
 }
